@@ -365,6 +365,7 @@ func runC19(seed uint64, n int, outDir string, replay string) {
 				}
 				p19Invariants(o, pool, accts, submitted, where)
 			}
+			dropFor := map[int]uint64{}
 			for step, steps := 0, 12+rc.Intn(25); step < steps; step++ {
 				ai := rc.Intn(len(accts))
 				a := accts[ai]
@@ -438,14 +439,28 @@ func runC19(seed uint64, n int, outDir string, replay string) {
 						}
 					}
 					ans(res)
+					if res == "replaced" {
+						dropFor[ai] = tx.Cost().Uint64() // the next block leaves this account just short of the replacement's cost
+					}
 				case k < 9: // a block on the current head: includes a prefix of some accounts' executable transactions
 					var inc types.Transactions
-					for _, b := range accts {
+					for bi, b := range accts {
 						pend, _ := pool.ContentFrom(b.ia)
 						sort.Slice(pend, func(i, j int) bool { return pend[i].Nonce() < pend[j].Nonce() })
 						take := rc.Intn(len(pend) + 1)
 						if rc.Chance(40) {
 							take = 0
+						}
+						if c, ok := dropFor[bi]; ok {
+							delete(dropFor, bi)
+							if c > 10 && rc.Chance(70) {
+								take = 0
+								b.balance = c - 1 - uint64(rc.Intn(3))
+								for _, t := range pend[:take] {
+									inc = append(inc, t)
+								}
+								continue
+							}
 						}
 						for _, t := range pend[:take] {
 							inc = append(inc, t)
@@ -453,6 +468,18 @@ func runC19(seed uint64, n int, outDir string, replay string) {
 						}
 						if rc.Chance(25) {
 							b.balance = 1_000_000 + uint64(rc.Intn(9_000_000))
+						} else if rest := pend[take:]; len(rest) > 0 && rc.Chance(30) {
+							// just below the cost of the costliest transaction that stays: it must go, whatever the list's
+							// cached cost cap says (a replacement may have raised the real cost)
+							var mx uint64
+							for _, t := range rest {
+								if c := t.Cost().Uint64(); c > mx {
+									mx = c
+								}
+							}
+							if mx > 10 {
+								b.balance = mx - 1 - uint64(rc.Intn(5))
+							}
 						}
 					}
 					nb := ch.newBlock(ch.CurrentBlock(), inc, accts, uint64(step))
